@@ -692,18 +692,30 @@ def inline_new_helpers(tree, ref_tree, hier=None):
     done = []
 
     def ref_closures(qual):
-        # names of functions nested in the reference's function of that qualified name
-        node = ref_tree
+        # names of functions nested in the reference's function(s) of that qualified name (strategies share names)
+        nodes = [ref_tree]
         for part in qual:
-            nxt = None
-            for s in ast.walk(node):
-                if isinstance(s, FuncTypes + (ast.ClassDef,)) and s.name == part and s is not node:
-                    nxt = s
-                    break
-            if nxt is None:
+            nxt = []
+            for node in nodes:
+                body = getattr(node, "body", [])
+                stack = list(body)
+                while stack:
+                    s_ = stack.pop()
+                    if isinstance(s_, FuncTypes + (ast.ClassDef,)):
+                        if s_.name == part:
+                            nxt.append(s_)
+                        continue
+                    for fld in ("body", "orelse", "finalbody"):
+                        stack.extend(getattr(s_, fld, []) or [])
+                    for h in getattr(s_, "handlers", []) or []:
+                        stack.extend(h.body)
+            nodes = nxt
+            if not nodes:
                 return set()
-            node = nxt
-        return {s.name for s in ast.walk(node) if isinstance(s, FuncTypes) and s is not node}
+        out = set()
+        for node in nodes:
+            out |= {s_.name for s_ in ast.walk(node) if isinstance(s_, FuncTypes) and s_ is not node}
+        return out
 
     def visit(body, qual, cls):
         for s in body:
